@@ -34,7 +34,6 @@ def eq(req, a, b):
 
 
 KNOWN_CLASSES = {
-    "pow-neg-exponent": "C14-pow-neg-exponent",
     "int-literal-overflow": "C14-int-literal-overflow",
 }
 
